@@ -776,6 +776,9 @@ def r09_14(run, model):
 
 
 def run(run, model):
+    # liveness / effect walkers of the Go dead-code pass visit a sub-term whatever its shape (shared with C01 R01.14)
+    from rules import c01 as _c01w
+    run.try_rule(_c01w.r01_14, model, "R09.18", r"/go/dce\.rs$")
     run.try_rule(r09_10, model)
     run.try_rule(r09_11, model)
     run.try_rule(r09_9, model)
